@@ -487,6 +487,43 @@ pub fn gen_c01(run: &mut Run, seed: u64, thorough: bool) {
         }
         g.run.op("gw.epoch", "q");
     }
+    // a set that has LEFT the retention window stays out for good: a batch it approved while live, re-submitted with its (once
+    // valid) signatures, is refused; it cannot be installed a second time; and it approves nothing afterwards
+    for ret in [0u64, 1, 2] {
+        let a_set = g.mk_set(2, 0, 2);
+        g.new_gateway(&format!("c01-expired-ret{ret}"), vec![a_set.clone()], ret, 0);
+        let m1 = g.fresh_msg();
+        let m2 = g.fresh_msg();
+        let ms = vec![m1.clone(), m2.clone()];
+        let dh = approve_data_hash(&g.env, &ms);
+        let pf_a = g.honest(&a_set, &dh);
+        g.approve(&ms, &pf_a, "expiry-setup-approve-while-live");
+        let app = m2.contract.clone();
+        g.run.op(
+            &format!("gw.validate_message {} {} {} {} {} {}", app.tok(), hx(&m2.chain), hx(&m2.id), hx(&m2.src), hex::encode(m2.ph), AuthSpec::exact(&[app.clone()]).tok()),
+            "expiry-setup-consume",
+        );
+        for _ in 0..=ret {
+            let ws = g.mk_set(2, 0, 2);
+            g.rotate_honest(&ws, "history-rotation");
+        }
+        g.approve(&ms, &pf_a, "resubmit-approved-batch-by-expired-set");
+        let pf_1 = g.honest(&a_set, &approve_data_hash(&g.env, &[m1.clone()]));
+        g.approve(&[m1.clone()], &pf_1, "resubmit-approved-message-by-expired-set");
+        g.validate_proof(&dh, &pf_a, "vp-expired");
+        let latest = g.sets.last().unwrap().clone();
+        let pf = g.honest(&latest, &a_set.rotation_data_hash(&g.env));
+        g.rotate(&a_set, &pf, false, &AuthSpec::None, "reinstall-expired-set");
+        let m3 = g.fresh_msg();
+        let dh3 = approve_data_hash(&g.env, &[m3.clone()]);
+        let pf3 = g.honest(&a_set, &dh3);
+        g.approve(&[m3.clone()], &pf3, "approve-by-expired-set-after-reinstall-attempt");
+        g.validate_proof(&dh3, &pf3, "vp-expired-after-reinstall-attempt");
+        g.q_msg(&m1);
+        g.q_msg(&m3);
+        let h = a_set.hash(&g.env);
+        g.q_auth_state(&[h]);
+    }
     // gateways whose ONLY signer set is malformed (duplicated key, zero weight, threshold above the total, …): such a set
     // must never become a live set — construction fails; should it succeed, "proofs" by it are submitted right away
     for (k, (bad, name)) in malformed_sets(&mut g).into_iter().enumerate() {
@@ -535,7 +572,8 @@ pub fn gen_c02(run: &mut Run, seed: u64, thorough: bool) {
             (b"avax".to_vec(), b"0x1".to_vec()), // the same id as a message of another chain
             (b"abc".to_vec(), b"".to_vec()),
         ];
-        let apps = [Addr::c(60), Addr::c(61)];
+        // every fourth history: one of the two destination contracts is the GATEWAY's own address (an address like any other)
+        let apps = [Addr::c(60), if h % 4 == 3 { g.gwaddr.clone() } else { Addr::c(61) }];
         let mk = |k: usize, content: u8| -> Msg {
             let (c, i) = keys[k].clone();
             Msg {
@@ -606,6 +644,16 @@ pub fn gen_c02(run: &mut Run, seed: u64, thorough: bool) {
                         "consume-foreign-auth"
                     }
                 };
+                // the gateway never calls itself (the host refuses a contract authorising a call to itself): messages addressed
+                // to the gateway are approved and queried like any other, consumption attempts come from the other application
+                let mut class = class;
+                if caller == g.gwaddr {
+                    caller = apps[0].clone();
+                    if !matches!(auth, AuthSpec::None) {
+                        auth = AuthSpec::exact(&[caller.clone()]);
+                    }
+                    class = "consume-self-addressed-by-other";
+                }
                 g.run.op(
                     &format!(
                         "gw.validate_message {} {} {} {} {} {}",
@@ -895,7 +943,7 @@ pub fn gen_c03(run: &mut Run, seed: u64, thorough: bool) {
 // ------------------------------------------------------------------------------------------------
 pub fn gen_c08(run: &mut Run, seed: u64, thorough: bool) {
     let mut g = G::new(run, seed);
-    let retentions: Vec<u64> = if thorough { vec![0, 1, 2, 3, 5, 10, 1000, 1 << 32, (1 << 32) + 1, u64::MAX - 1, u64::MAX] } else { vec![0, 1, 2, 3, 10, 1 << 32, (1 << 32) + 1, u64::MAX - 1, u64::MAX] };
+    let retentions: Vec<u64> = if thorough { vec![0, 1, 2, 3, 5, 10, 15, 16, 17, 20, 33, 1000, 1 << 32, (1 << 32) + 1, u64::MAX - 1, u64::MAX] } else { vec![0, 1, 2, 3, 10, 15, 16, 17, 1 << 32, (1 << 32) + 1, u64::MAX - 1, u64::MAX] };
     let mut sc = 0;
     for &ret in &retentions {
         for ninit in 1..=3usize {
@@ -908,11 +956,17 @@ pub fn gen_c08(run: &mut Run, seed: u64, thorough: bool) {
             // non-zero minimum delay (time is moved forward before each plain rotation; bypass rotations need no waiting)
             let delay: u64 = if ninit == 1 { 500 } else { 0 };
             g.new_gateway(&format!("c08-{sc}-ret{ret}-init{ninit}-delay{delay}"), init, ret, delay);
-            let steps = (ret.min(4) + 3) as usize;
+            // retentions in the teens get a history long enough to reach both ends of the window
+            let steps = if ret >= 12 && ret <= 40 { ret as usize + 3 } else { (ret.min(4) + 3) as usize };
+            let mut approved_by: Vec<Option<(Msg, Pf)>> = vec![];
             for step in 0..=steps {
-                // probe EVERY installed set through each of the three paths
+                // probe EVERY installed set through each of the three paths (long histories: the two ends and the window's edge)
                 let n = g.sets.len();
                 for e in 0..n {
+                    let age_ = (n - 1 - e) as u64;
+                    if n > 8 && !(e < 2 || age_ < 2 || (age_ + 1 >= ret && age_ <= ret + 1)) {
+                        continue;
+                    }
                     let set = g.sets[e].clone();
                     let age = (n - 1 - e) as u64;
                     let cls = if age == 0 { "latest".to_string() } else if age <= ret { format!("retained-age{}", age.min(9)) } else { format!("expired-age{}", age.min(9)) };
@@ -923,8 +977,18 @@ pub fn gen_c08(run: &mut Run, seed: u64, thorough: bool) {
                     // approval path
                     let m = g.fresh_msg();
                     let pf = g.honest(&set, &approve_data_hash(&g.env, &[m.clone()]));
-                    g.approve(&[m.clone()], &pf, &format!("approve-{cls}"));
+                    let obs = g.approve(&[m.clone()], &pf, &format!("approve-{cls}"));
                     g.q_msg(&m);
+                    if obs.starts_with("ok") && approved_by.len() <= e {
+                        approved_by.resize(e + 1, None);
+                    }
+                    if obs.starts_with("ok") {
+                        approved_by[e] = Some((m.clone(), pf.clone()));
+                    } else if let Some(Some((m0, pf0))) = approved_by.get(e).cloned() {
+                        // what this set approved while it was valid, submitted again with the same signatures now that it is not
+                        g.approve(&[m0.clone()], &pf0, &format!("resubmit-approved-{cls}"));
+                        g.q_msg(&m0);
+                    }
                 }
                 if step == steps {
                     break;
